@@ -44,11 +44,13 @@ Definition arity_okb (ps : list string) (r : bool) (n : nat) : bool :=
 Definition begin_of (nc : list exp) (last : exp) : exp :=
   match nc with [] => last | _ => Begin (of_list (nc ++ [last])%list) end.
 
-(* which bindings may be dropped: the right-hand side is a constant and the variable is not free in the visited body *)
+(* which bindings may be dropped: the right-hand side is a constant and the variable is not free in the visited body
+   (or a later binder of the same %plain-let has its name: the later one wins) *)
 Fixpoint keep_ok (c : cenv) (fb : list string) (keep : list bool) (xs : list string) (es : list exp) : Prop :=
   match keep, xs, es with
   | [], [], [] => True
-  | k :: keep', x :: xs', e :: es' => (k = false -> isncb c e = false /\ ~ In x fb) /\ keep_ok c fb keep' xs' es'
+  | k :: keep', x :: xs', e :: es' =>
+      (k = false -> isncb c e = false /\ (~ In x fb \/ In x xs')) /\ keep_ok c fb keep' xs' es'
   | _, _, _ => False
   end.
 
@@ -82,6 +84,7 @@ Inductive ce : cenv -> exp -> exp -> Prop :=
 | CE_IfF c t t' a b b' : ce c t t' -> is_constant c t' = true -> truthy_constant c t' = false -> ce c b b' -> ce c (If t a b) b'
 | CE_Begin c es es' : ces c es es' -> ce c (Begin es) (Begin es')
 | CE_Prim c op a a' : ces c a a' -> ce c (Prim op a) (Prim op a')
+| CE_Fold c op a a' e1 : ces c a a' -> fold_prim c op (elist a') = Some e1 -> ce c (Prim op a) e1
 | CE_SetG c g e e' : ce c e e' -> ce c (SetG g e) (SetG g e')
 | CE_LetC c xs rhs rhs' b b' :
     ces c rhs rhs' ->
@@ -142,7 +145,8 @@ Proof.
   destruct H as [H1 H2]. destruct k; cbn [select] in Hn.
   - destruct Hx as [->|Hx]; [exfalso; apply Hn; left; reflexivity|].
     eapply IH; try eassumption. intros Hi. apply Hn. right; exact Hi.
-  - destruct Hx as [->|Hx]; [apply H1; reflexivity|]. eapply IH; eassumption.
+  - destruct Hx as [->|Hx]; [|eapply IH; eassumption].
+    destruct (H1 eq_refl) as [_ [Hf|Hl]]; [exact Hf|]. eapply IH; eassumption.
 Qed.
 
 Lemma filter_nil_ps (l : list string) : filter (fun y => negb (mem y [])) l = l.
@@ -158,6 +162,29 @@ Lemma fv_begin_of nc q : fv q = [] -> incl (fv (begin_of nc q)) (fvl nc).
 Proof.
   intros Hq. destruct nc as [|e nc]; cbn [begin_of]; [rewrite Hq; apply incl_nil_l|].
   cbn [fv]. rewrite fvs_fvl, elist_of_list, fvl_app. cbn [fvl]. rewrite Hq, !app_nil_r. apply incl_refl.
+Qed.
+
+Lemma all_some_two {A B} (f : A -> option B) al a b : all_some (map f al) = Some [a; b] ->
+  exists e1 e2, al = [e1; e2] /\ f e1 = Some a /\ f e2 = Some b.
+Proof.
+  destruct al as [|e1 [|e2 [|e3 l]]]; cbn [map all_some]; try discriminate.
+  - destruct (f e1); discriminate.
+  - destruct (f e1) eqn:H1; [|discriminate]. destruct (f e2) eqn:H2; [|discriminate].
+    intros E; inversion E; subst. exists e1, e2. auto.
+  - destruct (f e1); [|discriminate]. destruct (f e2); [|discriminate]. destruct (f e3); [|discriminate].
+    destruct (all_some (map f l)); discriminate.
+Qed.
+
+Lemma fold_prim_spec c op al e1 : fold_prim c op al = Some e1 ->
+  exists e1' e2' x y, op = PAddC /\ al = [e1'; e2'] /\ fst (to_const c e1') = Some (DNum x) /\
+                      fst (to_const c e2') = Some (DNum y) /\ e1 = Num (x + y).
+Proof.
+  unfold fold_prim. destruct op; try discriminate.
+  destruct (all_some (map (fun e0 => fst (to_const c e0)) al)) as [ds|] eqn:A; [|discriminate].
+  destruct ds as [|d1 [|d2 [|d3 ds]]]; try discriminate; destruct d1 as [x| | |]; try discriminate;
+    destruct d2 as [y| | |]; try discriminate.
+  intros E; inversion E. destruct (all_some_two _ _ _ _ A) as (e1' & e2' & -> & H1 & H2).
+  exists e1', e2', x, y. auto.
 Qed.
 
 Lemma atom_of_fv d e' : atom_of d = Some e' -> fv e' = [].
@@ -186,6 +213,7 @@ Proof.
     eapply incl_tran; [apply fvl_filter_incl|]. rewrite <- fvs_fvl. apply incl_appl. exact H.
   - (* IfT *) apply incl_appr, incl_appl. assumption.
   - (* IfF *) apply incl_appr, incl_appr. assumption.
+  - (* Fold *) destruct (fold_prim_spec _ _ _ _ e) as (? & ? & ? & ? & _ & _ & _ & _ & ->). apply incl_nil_l.
   - (* Let *) apply incl_app_app.
     + rewrite fvs_fvl, elist_of_list. eapply incl_tran; [apply fvl_select_incl|]. rewrite <- fvs_fvl. exact H.
     + intros x Hx. apply in_filter_inv in Hx. destruct Hx as [Hx Hn].
@@ -399,6 +427,12 @@ Proof.
     destruct HF as [|b b' l l' Hb HF]; cbn.
     + split; [repeat constructor|]. destruct Hs as [HG HO]. split; [exact HG|]. cbn. constructor; assumption.
     + split; [constructor|exact Hs].
+  - destruct HF as [|a a' l l' Ha HF]; [cbn; split; [constructor|exact Hs]|].
+    destruct HF as [|b b' l l' Hb HF].
+    { inversion Ha; subst; cbn; (split; [constructor|exact Hs]). }
+    destruct HF as [|c c' l l' Hc HF].
+    { inversion Ha; subst; inversion Hb; subst; cbn; (split; [repeat constructor|exact Hs]). }
+    inversion Ha; subst; inversion Hb; subst; cbn; (split; [repeat constructor|exact Hs]).
 Qed.
 
 (* ------------------------------------------------------------------ the simulation statement *)
@@ -642,33 +676,36 @@ Proof.
 Qed.
 
 Lemma keep_ok_F2 c fb keep xs es : keep_ok c fb keep xs es ->
-  Forall2 (fun (k : bool) e => k = false -> isncb c e = false) keep es /\
-  Forall2 (fun (k : bool) x => k = false -> ~ In x fb) keep xs.
+  Forall2 (fun (k : bool) e => k = false -> isncb c e = false) keep es.
 Proof.
   revert xs es; induction keep as [|k keep IH]; intros [|x xs] [|e es] H; cbn [keep_ok] in H; try contradiction.
-  - split; constructor.
-  - destruct H as [H1 H2]. destruct (IH _ _ H2). split; constructor; auto; intros Hk; apply H1; exact Hk.
+  - constructor.
+  - destruct H as [H1 H2]. constructor; [intros Hk; apply H1; exact Hk|eapply IH; exact H2].
 Qed.
 
-Lemma bind_fixed_select_rel fb : forall keep xs vs vs' ρ ρ' ρ1,
-  Forall2 (fun (k : bool) x => k = false -> ~ In x fb) keep xs ->
+Lemma bind_fixed_select_rel c fb : forall keep xs es vs vs' ρ ρ' ρ1,
+  keep_ok c fb keep xs es ->
   Forall2 vrel (select keep vs) vs' ->
   (forall y, In y fb -> ~ In y (select keep xs) -> orel vrel (lookup y ρ) (lookup y ρ')) ->
   bind_fixed xs vs ρ = Some ρ1 ->
   exists ρ1', bind_fixed (select keep xs) vs' ρ' = Some ρ1' /\ envrel fb ρ1 ρ1'.
 Proof.
-  induction keep as [|k keep IH]; intros xs vs vs' ρ ρ' ρ1 HK HF H0 B.
-  - inversion HK; subst. destruct vs; cbn [bind_fixed] in B; [|discriminate]. inversion B; subst.
+  induction keep as [|k keep IH]; intros xs es vs vs' ρ ρ' ρ1 HK HF H0 B.
+  - destruct xs; destruct es; cbn [keep_ok] in HK; try contradiction.
+    destruct vs; cbn [bind_fixed] in B; [|discriminate]. inversion B; subst.
     cbn [select] in *. inversion HF; subst. exists ρ'. split; [reflexivity|]. intros y Hy. apply H0; [exact Hy|intros []].
-  - inversion HK as [|k0 x keep0 xs0 Hk HK']; subst. destruct vs as [|v vs]; cbn [bind_fixed] in B; [discriminate|].
+  - destruct xs as [|x xs0]; destruct es as [|e es0]; cbn [keep_ok] in HK; try contradiction. destruct HK as [Hk HK'].
+    destruct vs as [|v vs]; cbn [bind_fixed] in B; [discriminate|].
     destruct k; cbn [select] in *.
     + inversion HF as [|v0 v' l0 vs0' Hv HF']; subst. cbn [bind_fixed].
-      eapply (IH xs0 vs vs0' (EBind x v ρ) (EBind x v' ρ') ρ1 HK' HF'); [|exact B].
+      eapply (IH xs0 es0 vs vs0' (EBind x v ρ) (EBind x v' ρ') ρ1 HK' HF'); [|exact B].
       intros y Hy Hn. cbn [lookup]. destruct (String.eqb y x) eqn:E; [constructor; exact Hv|].
       apply H0; [exact Hy|]. intros [->|Hi]; [rewrite String.eqb_refl in E; discriminate|exact (Hn Hi)].
-    + eapply (IH xs0 vs vs' (EBind x v ρ) ρ' ρ1 HK' HF); [|exact B].
+    + eapply (IH xs0 es0 vs vs' (EBind x v ρ) ρ' ρ1 HK' HF); [|exact B].
       intros y Hy Hn. cbn [lookup]. destruct (String.eqb y x) eqn:E.
-      * apply String.eqb_eq in E. subst y. exfalso. exact (Hk eq_refl Hy).
+      * apply String.eqb_eq in E. subst y. exfalso.
+        destruct (Hk eq_refl) as [_ [Hf|Hl]]; [exact (Hf Hy)|].
+        exact (keep_ok_dropped _ _ _ _ _ _ HK' Hl Hn Hy).
       * apply H0; assumption.
 Qed.
 
@@ -689,7 +726,7 @@ Lemma sim_let n : simP n -> forall c xs rhs rhs' b b' keep,
 Proof.
   intros Sn c xs rhs rhs' b b' keep Hr Hb HK s s' ρ ρ' r s1 Hs Hρ Hc E.
   rewrite eval_Let in *. cbn [fv] in Hρ, Hc.
-  destruct (keep_ok_F2 _ _ _ _ _ HK) as [K1 K2].
+  pose proof (keep_ok_F2 _ _ _ _ _ HK) as K1.
   destruct (evals n s ρ rhs) as [[rs s2]|] eqn:Ea; [|discriminate].
   assert (Hρs : envrel (fvl (select keep (elist rhs'))) ρ ρ').
   { rewrite <- (elist_of_list (select keep (elist rhs'))), <- fvs_fvl. eapply envrel_app_l; exact Hρ. }
@@ -699,7 +736,7 @@ Proof.
   { inversion E; subst. do 2 eexists. split; [reflexivity|]. split; assumption. }
   pose proof (const_vals n Sn _ _ _ Hr _ _ _ _ (cok_app_l _ _ _ _ Hc) Ea) as HCV.
   destruct (bind_fixed xs vs ρ) as [ρ1|] eqn:B.
-  - destruct (bind_fixed_select_rel (fv b') keep xs vs y ρ ρ' ρ1 K2 Hy) as (ρ1' & B' & A); [|exact B|].
+  - destruct (bind_fixed_select_rel c (fv b') keep xs (elist rhs') vs y ρ ρ' ρ1 HK Hy) as (ρ1' & B' & A); [|exact B|].
     { intros z Hz Hn. apply (envrel_app_r _ _ _ _ Hρ). apply in_filter_notin; assumption. }
     rewrite B'. eapply Sn; try eassumption.
     intros z d Hz G. eapply cok_bind_fixed; try eassumption.
@@ -825,6 +862,27 @@ Section Cases.
         do 2 eexists. split; [reflexivity|]. split; [constructor; apply datum_rel|exact Hs1].
       + cbn [begin_of]. rewrite eval_Begin, of_list_snoc, evals_eapp, Ea', evals_one, eval_Quote, last_val_snoc.
         do 2 eexists. split; [reflexivity|]. split; [constructor; apply datum_rel|exact Hs1].
+  Qed.
+
+  Lemma sim_fold c op a a' e1 :
+    ces c a a' -> fold_prim c op (elist a') = Some e1 ->
+    forall s s' ρ ρ' r0 s1, srel s s' -> cok c ρ (fv (Prim op a)) ->
+      eval (S n) s ρ (Prim op a) = Some (r0, s1) ->
+      exists r' s1', eval (S n) s' ρ' e1 = Some (r', s1') /\ rrel r0 r' /\ srel s1 s1'.
+  Proof.
+    intros Ha Hf s s' ρ ρ' r0 s1 Hs Hc E. rewrite eval_Prim in E. cbn [fv] in Hc.
+    destruct (fold_prim_spec _ _ _ _ Hf) as (e1' & e2' & x & y & -> & Hal & H1 & H2 & ->).
+    destruct (evals n s ρ a) as [[rs s2]|] eqn:Ea; [|discriminate].
+    assert (Hnil : select (map (isncb c) (elist a')) (elist a') = []).
+    { rewrite <- select_filter. apply filter_isncb_nil. rewrite Hal. cbn [forallb]. unfold isncb. rewrite H1, H2. reflexivity. }
+    destruct (sim_select _ Sn _ _ _ Ha (map (isncb c) (elist a')) s s' ρ ρ rs s2 (F2_map_isncb _ _) Hs) as (rs' & s2' & Ea' & Hs2 & Hm);
+      [apply envrel_refl|exact Hc|exact Ea|].
+    rewrite Hnil in Ea'. cbn [of_list] in Ea'. rewrite evals_Nil in Ea'. inversion Ea'; subst rs' s2'; clear Ea'.
+    destruct rs as [z|vs]; [destruct Hm as (? & ? & _); discriminate|].
+    pose proof (const_vals _ Sn _ _ _ Ha _ _ _ _ Hc Ea) as HCV. rewrite Hal in HCV.
+    inversion HCV as [|? v1 ? l1 Hv1 HCV1]; subst. inversion HCV1 as [|? v2 ? l2 Hv2 HCV2]; subst. inversion HCV2; subst.
+    rewrite (Hv1 _ H1), (Hv2 _ H2) in E. cbn [val_of_datum apply_prim] in E. inversion E; subst.
+    rewrite eval_Num. do 2 eexists. split; [reflexivity|]. split; [repeat constructor|exact Hs2].
   Qed.
 
   Lemma sim_if_const c t t' a a' b (pick : bool) :
@@ -954,6 +1012,7 @@ Proof.
     end.
     match goal with HH : (_, _) = (r0, s1) |- _ => inversion HH; subst end.
     do 2 eexists. split; [reflexivity|]. split; assumption.
+  - eapply sim_fold; eassumption.
   - (* SetG *)
     rewrite eval_SetG in *. cbn [fv] in Hρ, Hc.
     destruct (eval n s ρ e) as [[[v|] s2]|] eqn:Ec; try discriminate;
